@@ -44,10 +44,16 @@ def harness_hash():
     return h.hexdigest()
 
 
+def lockfile():
+    """/repo's Cargo.lock (it is git-ignored there); the pinned copy kept with the harness if it is absent"""
+    p = os.path.join(REPO, 'Cargo.lock')
+    return p if os.path.exists(p) else os.path.join(VERIF, 'harness', 'Cargo.lock.pinned')
+
+
 def _prepare_copy(dst):
     os.makedirs(dst)
     shutil.copytree(os.path.join(REPO, 'src'), os.path.join(dst, 'src'))
-    shutil.copy(os.path.join(REPO, 'Cargo.lock'), os.path.join(dst, 'Cargo.lock'))
+    shutil.copy(lockfile(), os.path.join(dst, 'Cargo.lock'))
     toml = open(os.path.join(REPO, 'Cargo.toml')).read()
     # the copy is its own workspace root (the test crates are not copied)
     out, skipping = [], False
